@@ -32,7 +32,8 @@
 (*   D4  validate() leaves in the Beta objects the estimates of the LAST   *)
 (*       slice's estimation set (not the full-sample estimates given);     *)
 (*   D5  quick_estimate() changes neither init nor start[o];               *)
-(*   D6  estimate(recycle=True) only reads the latest pickle file.         *)
+(*   D6  estimate(recycle=True) only reads the latest pickle file of the   *)
+(*       model NAME: with a shared name, possibly another object's.        *)
 (*                                                                         *)
 (* Model: LL(D, b, a) = - sum_{k in D} A1 (b1 - C1 x_k)^2                  *)
 (*                                    + A2 (b2 - C2 x_k - a)^2             *)
@@ -50,19 +51,21 @@ CONSTANTS
     DataSets,         \* set of sets of row indices an object can be built on
     Slices,           \* sequence of [est |-> rows, val |-> rows] used by Validate
     Objs,             \* object identities
+    ModelNames,       \* model names an object can be given (integers: name "m<k>"); objects may share one
     MaxSteps
 
-VARIABLES init, live, start, fixedv, data, iter, nrep, nval, results, tinit, tstart, hist, done
-vars == <<init, live, start, fixedv, data, iter, nrep, nval, results, tinit, tstart, hist, done>>
+VARIABLES init, live, start, fixedv, data, mname, best, iter, nrep, nval, results, lastres, tinit, tstart, hist, done
+vars == <<init, live, start, fixedv, data, mname, best, iter, nrep, nval, results, lastres, tinit, tstart, hist, done>>
 
 Rows == 1..Len(Xs)
 None == [set |-> FALSE]
 Some(p) == [set |-> TRUE, p |-> p]
 
-\* model names: object o is called "m<o>"; the objects validate() creates "m<o>_val_est_<k>"
-MName(o) == <<"m", o, 0>>
-VName(o, k) == <<"v", o, k>>
-AllNames == {MName(o) : o \in Objs} \cup {VName(o, k) : o \in Objs, k \in 1..Len(Slices)}
+\* model names: an object is called "m<k>" (k chosen at creation; two objects may be given the same name and
+\* then share their files); the objects validate() creates are called "m<k>_val_est_<slice>"
+MName(o) == <<"m", mname[o], 0>>
+VName(o, k) == <<"v", mname[o], k>>
+AllNames == {<<"m", m, 0>> : m \in ModelNames} \cup {<<"v", m, k>> : m \in ModelNames, k \in 1..Len(Slices)}
 
 (***************************************************************************)
 (* The likelihood and its maximiser.                                       *)
@@ -94,7 +97,8 @@ C(t) == <<t.n, t.d>>
 CB(b) == [b1 |-> C(b.b1), b2 |-> C(b.b2)]
 Proj(i, lv, st, fx, it, nr, nv) ==
     [init   |-> [b1 |-> C(i.b1), b2 |-> C(i.b2), a |-> C(i.a)],
-     objs   |-> {[o |-> o, start |-> CB(st[o]), fixed |-> C(fx[o]), nval |-> nv[o]] : o \in lv},
+     objs   |-> {[o |-> o, start |-> CB(st[o]), fixed |-> C(fx[o])] : o \in lv},
+     nval   |-> {<<m, nv[m]>> : m \in {k \in ModelNames : nv[k] > 0}},
      reports |-> {<<nm, nr[nm]>> : nm \in {n \in AllNames : nr[n] > 0}},
      iters  |-> {nm \in AllNames : it[nm].set}]
 Step(act, o, arg, ret, exact) ==
@@ -110,9 +114,12 @@ Init == /\ init = Init0
         /\ start = [o \in Objs |-> B(Init0)]
         /\ fixedv = [o \in Objs |-> Init0.a]
         /\ data = [o \in Objs |-> Rows]
+        /\ mname = [o \in Objs |-> CHOOSE m \in ModelNames : TRUE]
+        /\ best = [o \in Objs |-> FALSE]
+        /\ lastres = [nm \in AllNames |-> None]
         /\ iter = [nm \in AllNames |-> None]
         /\ nrep = [nm \in AllNames |-> 0]
-        /\ nval = [o \in Objs |-> 0]
+        /\ nval = [m \in ModelNames |-> 0]
         /\ results = [o \in Objs |-> None]
         /\ tinit = FALSE
         /\ tstart = [o \in Objs |-> FALSE]
@@ -122,14 +129,15 @@ Init == /\ init = Init0
 Going == ~done /\ Len(hist) < MaxSteps
 
 \* a new object takes a snapshot of the values carried by the expression
-New(o, D) == /\ Going /\ o \notin live
+New(o, D, m) == /\ Going /\ o \notin live
+             /\ mname' = [mname EXCEPT ![o] = m]
              /\ live' = live \cup {o}
              /\ start' = [start EXCEPT ![o] = B(init)]
              /\ fixedv' = [fixedv EXCEPT ![o] = init.a]
              /\ data' = [data EXCEPT ![o] = D]
              /\ tstart' = [tstart EXCEPT ![o] = tinit]
-             /\ UNCHANGED <<init, iter, nrep, nval, results, tinit, done>>
-             /\ Log("new", o, [rows |-> SortedRows(D)], "none", TRUE)
+             /\ UNCHANGED <<init, best, iter, nrep, nval, results, lastres, tinit, done>>
+             /\ Log("new", o, [rows |-> SortedRows(D), name |-> m], "none", TRUE)
 
 DArg(d) == [b1 |-> IF d.b1.set THEN <<C(d.b1.v)>> ELSE << >>,
             b2 |-> IF d.b2.set THEN <<C(d.b2.v)>> ELSE << >>,
@@ -140,17 +148,17 @@ ChangeInitB(o, d) == /\ Going /\ o \in live
                      /\ init' = [b1 |-> Override(B(init), d).b1, b2 |-> Override(B(init), d).b2,
                                  a |-> IF d.a.set THEN d.a.v ELSE init.a]
                      /\ start' = [start EXCEPT ![o] = Override(start[o], d)]
-                     /\ UNCHANGED <<live, fixedv, data, iter, nrep, nval, results, tinit, tstart, done>>
+                     /\ UNCHANGED <<live, fixedv, data, mname, best, iter, nrep, nval, results, lastres, tinit, tstart, done>>
                      /\ Log("change_init_object", o, DArg(d), "none", TRUE)
 
 \* on the expression only
 ChangeInitE(d) == /\ Going
                   /\ init' = [b1 |-> Override(B(init), d).b1, b2 |-> Override(B(init), d).b2,
                               a |-> IF d.a.set THEN d.a.v ELSE init.a]
-                  /\ UNCHANGED <<live, start, fixedv, data, iter, nrep, nval, results, tinit, tstart, done>>
+                  /\ UNCHANGED <<live, start, fixedv, data, mname, best, iter, nrep, nval, results, lastres, tinit, tstart, done>>
                   /\ Log("change_init_expression", 0, DArg(d), "none", TRUE)
 
-Same == UNCHANGED <<init, live, start, fixedv, data, iter, nrep, nval, results, tinit, tstart, done>>
+Same == UNCHANGED <<init, live, start, fixedv, data, mname, best, iter, nrep, nval, results, lastres, tinit, tstart, done>>
 
 LLAt(o, p) == /\ Going /\ o \in live /\ Same
               /\ Log("likelihood", o, CB(p), C(SumOver(data[o], p, fixedv[o])), TRUE)
@@ -173,7 +181,9 @@ Estimate(o) ==
         /\ iter' = [iter EXCEPT ![nm] = Some(opt)]
         /\ nrep' = [nrep EXCEPT ![nm] = @ + 1]
         /\ results' = [results EXCEPT ![o] = Some(opt)]
-        /\ UNCHANGED <<live, fixedv, data, nval, done>>
+        /\ lastres' = [lastres EXCEPT ![nm] = Some([b |-> opt, ll |-> SumOver(data[o], opt, fixedv[o])])]
+        /\ best' = [best EXCEPT ![o] = TRUE]
+        /\ UNCHANGED <<live, fixedv, data, mname, nval, done>>
         /\ Log("estimate", o, "none", [betas |-> CB(opt), ll |-> C(SumOver(data[o], opt, fixedv[o]))], FALSE)
 
 \* quick_estimate(): D5
@@ -181,8 +191,13 @@ QuickEstimate(o) ==
     LET nm == MName(o)
         opt == Optimum(data[o], fixedv[o])
     IN  /\ Going /\ o \in live
+        \* the object remembers the best value it has saved (estimate() forgets it, quick_estimate() does not):
+        \* when another object of the same name has meanwhile written the file, whether this one overwrites
+        \* it depends on rounding -- those histories are left out
+        /\ (best[o] => iter[nm] = Some(opt))
         /\ iter' = [iter EXCEPT ![nm] = Some(opt)]
-        /\ UNCHANGED <<init, live, start, fixedv, data, nrep, nval, results, tinit, tstart, done>>
+        /\ best' = [best EXCEPT ![o] = TRUE]
+        /\ UNCHANGED <<init, live, start, fixedv, data, mname, nrep, nval, results, lastres, tinit, tstart, done>>
         /\ Log("quick_estimate", o, "none", [betas |-> CB(opt), ll |-> C(SumOver(data[o], opt, fixedv[o]))], FALSE)
 
 \* validate(results of o): per slice a fresh estimation object and a fresh simulation object on the SAME
@@ -200,8 +215,12 @@ Validate(o) ==
                                         THEN Some(opts[CHOOSE k \in 1..Len(Slices) : nm = VName(o, k)])
                                         ELSE iter[nm]]
         /\ nrep' = [nm \in AllNames |-> IF \E k \in 1..Len(Slices) : nm = VName(o, k) THEN nrep[nm] + 1 ELSE nrep[nm]]
-        /\ nval' = [nval EXCEPT ![o] = @ + 1]
-        /\ UNCHANGED <<live, start, fixedv, data, results, tstart, done>>
+        /\ nval' = [nval EXCEPT ![mname[o]] = @ + 1]
+        /\ lastres' = [nm \in AllNames |-> IF \E k \in 1..Len(Slices) : nm = VName(o, k)
+                                           THEN LET k == CHOOSE j \in 1..Len(Slices) : nm = VName(o, j)
+                                                IN  Some([b |-> opts[k], ll |-> SumOver(Slices[k].est, opts[k], a)])
+                                           ELSE lastres[nm]]
+        /\ UNCHANGED <<live, start, fixedv, data, mname, best, results, tstart, done>>
         /\ Log("validate", o, "none",
                [k \in 1..Len(Slices) |->
                    LET vr == Slices[k].val IN [j \in 1..Cardinality(vr) |-> C(PerRow(vr, opts[k], a)[j])]], FALSE)
@@ -211,12 +230,12 @@ Validate(o) ==
 Recycle(o) ==
     /\ Going /\ o \in live /\ nrep[MName(o)] > 0 /\ Same
     /\ Log("estimate_recycle", o, "none",
-           [betas |-> CB(results[o].p), ll |-> C(SumOver(data[o], results[o].p, fixedv[o]))], FALSE)
+           [betas |-> CB(lastres[MName(o)].p.b), ll |-> C(lastres[MName(o)].p.ll)], FALSE)
 
 Finish == ~done /\ Len(hist) = MaxSteps /\ done' = TRUE
-          /\ UNCHANGED <<init, live, start, fixedv, data, iter, nrep, nval, results, tinit, tstart, hist>>
+          /\ UNCHANGED <<init, live, start, fixedv, data, mname, best, iter, nrep, nval, results, lastres, tinit, tstart, hist>>
 
-Next == \/ \E o \in Objs, D \in DataSets : New(o, D)
+Next == \/ \E o \in Objs, D \in DataSets, m \in ModelNames : New(o, D, m)
         \/ \E o \in Objs, d \in Dicts : ChangeInitB(o, d)
         \/ \E d \in Dicts : ChangeInitE(d)
         \/ \E o \in Objs, p \in Points : LLAt(o, p) \/ Simulate(o, p)
@@ -241,9 +260,14 @@ StartMovesOnlyByNamedSteps ==
     [][\A o \in live : start'[o] # start[o] =>
           \/ \E d \in Dicts : start'[o] = Override(start[o], d)
           \/ (iter[MName(o)].set /\ start'[o] = iter[MName(o)].p)]_vars
-\* a saved-iteration file always holds the maximiser of the model that wrote it
+\* a saved-iteration file always holds the maximiser of SOME object of that name (the last writer)
 IterHoldsOptimum ==
-    \A o \in live : iter[MName(o)].set => iter[MName(o)].p = Optimum(data[o], fixedv[o])
+    \A m \in ModelNames : iter[<<"m", m, 0>>].set =>
+        \E o \in live : mname[o] = m /\ iter[<<"m", m, 0>>].p = Optimum(data[o], fixedv[o])
+\* what recycling returns was produced by an object of that name, on that object's data
+RecycledBelongsToTheName ==
+    \A m \in ModelNames : lastres[<<"m", m, 0>>].set =>
+        \E o \in live : mname[o] = m /\ lastres[<<"m", m, 0>>].p.b = Optimum(data[o], fixedv[o])
 
 Emitted == [steps |-> hist]
 EmitInv == done => PrintT(ToJson(Emitted))
